@@ -352,6 +352,7 @@ func (w *world) tracedCall(p *party, op *oaruntime.ClientOperation, k int, sc ca
 	p.s.cur = r
 	w.rec.add(p.caller, "submit", M{"k": k})
 	out := w.submit(w.traced, op)
+	out["k"] = k
 	w.rec.add(p.caller, "return", out)
 }
 
